@@ -45,7 +45,7 @@ int main(void) {
   else if (!uns && lng == 2) want = fits_long ? K_llong : K_ullong;
   else                       want = K_ullong;
   __CPROVER_assert(!__exc_pending, "C16: a well-formed integer literal is not rejected");
-  __CPROVER_assert(res_calls == 1, "C16: exactly one constant is built for an integer literal");
+  __CPROVER_assert(res_calls == 1, "C16: exactly one constant is built for an integer literal, by const_var (C07/C08: a literal value is const - the syntax tree hands it out by reference)");
   __CPROVER_assert(res_kind == want, "C16: integer literal has the first type of the C++ literal-typing sequence able to hold it");
   __CPROVER_assert(res_val == V, "C16: integer literal evaluates to exactly the written value");
   __CPROVER_assert(seen_base == BASE, "C16: digits are converted in the base the prefix denotes");
